@@ -4,6 +4,7 @@ import Hub.Model.Run
 import Hub.SDK.Bech32
 import Hub.SDK.Paginate
 import Hub.Model.Query
+import Hub.Model.Genesis
 import Hub.Generated.Proto
 /-
 Line-protocol driver of the model (core-only, runs as `lake env lean --run Main.lean` or as the
@@ -145,11 +146,12 @@ def mintProbeLine (s : State) (t : Time) : String :=
   let infl := if rem.length < before then toString s.minterInfl else "-"
   s!"M max={s.mintMax} min={s.mintMin} rate={s.mintRate} infl={infl} remaining={remS}"
 
-def respond (d : Drv) (line : String) (result : String) (events : List String) (withDump : Bool) : Drv × List String :=
+def respond (d : Drv) (line : String) (result : String) (events : List String) (withDump : Bool)
+    (afterEnd : Bool := false) : Drv × List String :=
   let hdr := ["> " ++ line, "R " ++ result] ++ events
   if withDump then
     let cur := dump d.s
-    ({ d with prev := cur }, hdr ++ delta d.prev cur ++ monitorLines d.s)
+    ({ d with prev := cur }, hdr ++ delta d.prev cur ++ monitorLines d.s afterEnd)
   else (d, hdr)
 
 def step (d : Drv) (line : String) : Drv × List String :=
@@ -176,7 +178,7 @@ def step (d : Drv) (line : String) : Drv × List String :=
         | .error m => respond { d with halted := true } line ("halt:" ++ m.replace " " "_") [] false
       | "end" =>
         match endBlock d.s with
-        | .ok s' => respond { d with s := s' } line "accept" s'.events true
+        | .ok s' => respond { d with s := s' } line "accept" s'.events true true
         | .error m => respond { d with halted := true } line ("halt:" ++ m.replace " " "_") [] false
       | "tx" =>
         match rest with
@@ -199,6 +201,11 @@ def step (d : Drv) (line : String) : Drv × List String :=
         match rest with
         | sub :: rest' => let (r, ls) := runQuery d.s sub (parseFields rest'); respond d line r ls false
         | [] => respond d line "bad-op" [] false
+      | "export" => let (r, ls) := exportLines d.s; respond d line r ls false
+      | "reimport" =>
+        match reimportState d.s with
+        | .ok s' => respond { d with s := s', prev := [] } line "accept" [] true
+        | .error m => respond d line ("reject:" ++ m.replace " " "_") [] true
       | "dump" => respond d line "accept" [] true
       | _ => respond d line "bad-op" [] false
 
